@@ -669,9 +669,19 @@ fn distinct_idx(r: &mut Rng, n: usize, k: usize) -> Vec<usize> {
 }
 
 fn gen_def(r: &mut Rng, idx: usize, earlier: &[Def]) -> Def {
+    gen_def_chain(r, idx, earlier, false)
+}
+
+/// `chain`: the body ends with a call of the previous definition (deep nesting)
+fn gen_def_chain(r: &mut Rng, idx: usize, earlier: &[Def], chain: bool) -> Def {
     let name = format!("{}{}", *r.pick(&["foo", "bar", "my_gate", "u_block", "G"]), idx);
     let nparams = r.below(3);
-    let nargs = 1 + r.below(3);
+    let mut nargs = 1 + r.below(3);
+    if chain {
+        if let Some(prev) = earlier.last() {
+            nargs = nargs.max(prev.nargs);
+        }
+    }
     let pnames: Vec<String> = (0..nparams).map(|i| ["theta", "phi", "lam"][i].to_string()).collect();
     let anames: Vec<String> = (0..nargs).map(|i| ["a", "b", "c"][i].to_string()).collect();
     let mut body = vec![];
@@ -722,6 +732,21 @@ fn gen_def(r: &mut Rng, idx: usize, earlier: &[Def]) -> Def {
                 body.push(BStmt::Call { def: di, params: ps, args: a });
             }
         }
+    }
+    if chain && !earlier.is_empty() {
+        let di = earlier.len() - 1;
+        let dd = &earlier[di];
+        let a = distinct_idx(r, nargs, dd.nargs);
+        let mut ps = vec![];
+        let mut ptxt = vec![];
+        for _ in 0..dd.nparams {
+            let (s, e) = gen_body_expr(r, &pnames);
+            ptxt.push(s);
+            ps.push(e);
+        }
+        let ptxt = if ptxt.is_empty() { String::new() } else { format!("({})", ptxt.join(",")) };
+        lines.push(format!("{}{} {};", dd.name, ptxt, a.iter().map(|&i| anames[i].clone()).collect::<Vec<_>>().join(",")));
+        body.push(BStmt::Call { def: di, params: ps, args: a });
     }
     if body.is_empty() {
         lines.push(format!("h {};", anames[0]));
@@ -838,12 +863,16 @@ fn gen_statement(r: &mut Rng, regs: &Regs, defs: &[Def], allow_measure: bool, fe
         if defs.is_empty() {
             return None;
         }
-        let di = r.below(defs.len());
+        // with a long chain of definitions, the deepest ones are called more often
+        let di = if defs.len() >= 5 && r.chance(0.6) { defs.len() - 1 - r.below(2) } else { r.below(defs.len()) };
         let d = &defs[di];
         if d.nargs > regs.nq {
             return None;
         }
         feats.push("user-gate".into());
+        if defs.len() >= 5 {
+            feats.push("deep-definition-chain".into());
+        }
         let q = pick_qubits(r, regs, d.nargs);
         let mut ps = vec![];
         let mut ptxt = vec![];
@@ -956,10 +985,21 @@ fn assemble(r: &mut Rng, regs: &Regs, defs: &[Def], stmts: &[String], late_at: O
 fn gen_program(r: &mut Rng, max_stmts: usize) -> Program {
     let regs = gen_regs(r, 1, false);
     let mut defs: Vec<Def> = vec![];
-    let nd = if r.chance(0.5) { 0 } else { 1 + r.below(3) };
+    // mostly 0-3 definitions; now and then a chain of 5-14 in which each calls the one before
+    let deep = r.chance(0.05);
+    let nd = if deep {
+        5 + r.below(10)
+    } else if r.chance(0.5) {
+        0
+    } else {
+        1 + r.below(3)
+    };
     for i in 0..nd {
-        let d = gen_def(r, i, &defs);
+        let d = if deep { gen_def_chain(r, i, &defs, true) } else { gen_def(r, i, &defs) };
         defs.push(d);
+    }
+    if deep {
+        ctx().maximum("max_definition_nesting_depth", nd as u64);
     }
     let ns = 1 + r.below(max_stmts);
     let mut stmts = vec![];
@@ -1082,7 +1122,18 @@ fn gen_unsupported(r: &mut Rng, regs: &Regs) -> (String, String, String) {
             }
             5 => {
                 // U / barrier hidden inside a user gate definition
-                if r.chance(0.5) {
+                if r.chance(0.35) {
+                    // the same, k definitions deep (k = 1..14): w0 hides the construct, w_i calls w_(i-1)
+                    let k = 1 + r.below(14);
+                    let inner = if r.chance(0.5) { "U(0,0,pi/2) a;" } else { "barrier a;" };
+                    let mut defs = format!("gate w0 a {{ h a; {inner} h a; }}");
+                    for i in 1..=k {
+                        defs += &format!("\ngate w{i} a {{ {} w{} a; }}", if r.chance(0.5) { "t a;" } else { "" }, i - 1);
+                    }
+                    let class = if inner.starts_with('U') { "U-in-nested-gate-body" } else { "barrier-in-nested-gate-body" };
+                    ctx().maximum("max_definition_nesting_depth", k as u64 + 1);
+                    return (class.into(), format!("w{k} {};", q1[0].0), defs);
+                } else if r.chance(0.5) {
                     return ("U-in-gate-body".into(), format!("hidden_u {};", q1[0].0), "gate hidden_u a { h a; U(0,0,pi/2) a; h a; }".into());
                 } else if q2.len() == 2 {
                     return (
